@@ -329,10 +329,6 @@ def defer():
                 ts = _delay(p).total_seconds()
 
                 if ts <= 300.0:
-                    # several events of one task may be due together
-                    if t not in que:
-                        que.append(t)
-                    que.sort(key=lambda i: i.get('level'))
                     t.set('status', State.waiting)
                     t.set('event', 'Periodic timer')
 
@@ -340,6 +336,12 @@ def defer():
                         t.get('todo').add('__all__')
                     else:
                         t.get('todo').update(dawgie.db.targets())
+
+                    # several events of one task may be due together and,
+                    # as in organize(), only jobs with work belong in the queue
+                    if t not in que and (t.get('todo') or t.get('doing')):
+                        que.append(t)
+                    que.sort(key=lambda i: i.get('level'))
 
                     log.debug(
                         'defer() - moving task %s to the job queue', t.tag
